@@ -127,9 +127,10 @@ structure JusticeState where
           confirm <n> <out,…> <v+v,…|->          (the cheater's tx of number n confirms, then the listed
                                                   second-stage txs) → claimed outpoints, sorted
           data <n>                               → the HTLC list still stored for n
-          chain <tip> <n> <out,…> <v+v,…|->      start the chain model of Model/JusticeChain.lean at height <tip> for the
+          chain <tip> <n> <out,…> <i+i,…|->      start the chain model of Model/JusticeChain.lean at height <tip> for the
                                                   revoked commitment n; the last argument lists EVERY second-stage
-                                                  transaction the cheater holds (the commitment outputs each spends)
+                                                  transaction the cheater holds, input by input (the commitment output
+                                                  the input spends, `x` for any other input)
           conn <tx,…|->                          a block is connected (`C`, `S<k>`, `J<outpoint>+…`) → `claimable_outpoints`
           disc <newTip>                          blocks above <newTip> are disconnected → `claimable_outpoints`
           rebc | reload                          → `claimable_outpoints` -/
@@ -168,7 +169,7 @@ def c06justice : Drv where
       | some d => (s, if d.isEmpty then "-" else ",".intercalate (d.map fun (h, _) =>
           s!"{h.amtMsat}:{if h.offered then 1 else 0}:{h.cltv}:{match h.outIdx with | some i => toString i | none => "-"}"))
     | ["chain", tip, n, outs, second] =>
-      match listOf outOf outs, listOf (fun t => some ((splitOnChar t '+').map nat!)) second with
+      match listOf outOf outs, listOf (fun t => some ((splitOnChar t '+').map fun i => if i == "x" then none else some (nat! i))) second with
       | some os, some sec =>
         let b : Body := { outputs := os, htlcs := [] }
         let W := Justice.World.ofMonitor P m (nat! n) (b.tx (secretOf P .seed (nat! n))) sec Ldk.BREAKDOWN_TIMEOUT
